@@ -14,6 +14,7 @@ RULE = ('Random CSV datasets (1-3 symbols starting on different dates, 1-40 rows
         'Metamorphic: the same rows in reverse order give identical answers. Non-trivial: a dataset with a gap, a '
         'missing cell and shuffled rows; distinct = (adjust flag, gap pattern, missing-cell mask).'
         ' Widened: the same instant expressed in other time zones and with a nanosecond component; the same directory rewritten and loaded by a new source object; Adj Close blank on its own.')
+RULE += ' Some tickers carry dots (S0.L next to S0, BRK.B). The two-source handler is asked bid, ask and mid. Every second adjusted dataset is also read through the data handler a BacktestTradingSession builds for itself from $QSTRADER_CSV_DATA_DIR (static universe, or dynamic universe whose members join at the start, mid-way, on the last day), for every asset that is ever a member.'
 ASSUMPTIONS = [
     'unique dates per file; Close and Adj Close are missing together (otherwise "scaled by adjusted-close/close" has no single reading)',
     'values compared at 1e-12 relative (one division and one multiplication in the adjustment)',
